@@ -90,3 +90,31 @@ contract("spec.harness.tg_dict_roundtrip", serves=["C01", "C03"], spec_module="s
                                  "and result.tiers[i].name == tg.tiers[i].name "
                                  "and result.tiers[i].minTimestamp == tg.tiers[i].minTimestamp "
                                  "and result.tiers[i].maxTimestamp == tg.tiers[i].maxTimestamp)")])
+
+
+# ---- C02 / C01: the two text writers equal the format grammar (spec/render.py) for 0..2 tiers with any number of
+# entries.  The string accumulation loops are summarised by R-STRFOLD (pyvc/loops.py): acc ++ join(flatMap(chunk))
+contract(IO + "_tgToShortTextForm", serves=["C02", "C01"], spec_module="spec.render",
+         configs={"k": [0, 1, 2]},
+         inputs=lambda S, cfg: dict(tg=tg_dict(S, cfg["k"])),
+         spec="spec.render.short_textgrid", frame=["tg"], raises={})
+contract(IO + "_tgToLongTextForm", serves=["C02", "C01"], spec_module="spec.render",
+         configs={"k": [0, 1, 2]},
+         inputs=lambda S, cfg: dict(tg=tg_dict(S, cfg["k"])),
+         spec="spec.render.long_textgrid", frame=["tg"], raises={})
+
+
+# ---- C19: the writers of KlattGrid point tiers equal the grammar in spec/render.py (any number of points)
+KG2 = "praatio.data_classes.klattgrid."
+contract(KG2 + "KlattSubPointTier.getAsText", serves=["C19"], spec_module="spec.render",
+         inputs=lambda S, cfg: dict(self=S.obj(KG2 + "KlattSubPointTier", name=S.str("self.name"),
+                                               _entries=S.list("self.entries", "pair"),
+                                               minTimestamp=S.real("self.min"), maxTimestamp=S.real("self.max"))),
+         requires=["-1e15 <= self.minTimestamp", "self.minTimestamp <= 1e15"],
+         spec="spec.render.klatt_subpoint_tier", raises={})
+contract(KG2 + "KlattPointTier.getAsText", serves=["C19"], spec_module="spec.render",
+         inputs=lambda S, cfg: dict(self=S.obj(KG2 + "KlattPointTier", name=S.str("self.name"),
+                                               _entries=S.list("self.entries", "pair"),
+                                               minTimestamp=S.real("self.min"), maxTimestamp=S.real("self.max"))),
+         requires=["-1e15 <= self.minTimestamp", "self.minTimestamp <= 1e15"],
+         spec="spec.render.klatt_point_tier", raises={})
